@@ -41,6 +41,7 @@ var KnownDeviations = []KnownDeviation{
 	{Scope: "optional-match-multiplies-duplicate-rows", Dev: cyref.Deviations{OptionalMatchMultipliesDuplicateRows: true}},
 	{Scope: "optional-match-multiplies-duplicate-rows", Dev: cyref.Deviations{OptionalMatchMultipliesDuplicateRows: true, OptionalMatchJoinsOnAllBindings: true}},
 	{Scope: "exact-range-expansion-with-repeated-variable-cross-joins-node-table", Dev: cyref.Deviations{ExactRangeRepeatedVariableCrossJoinsNodes: true}},
+	{Scope: "with-clause-order-skip-limit-dropped", Dev: cyref.Deviations{WithDropsOrderSkipLimit: true}},
 	{Scope: "arithmetic-and-sum-coerce-property-through-text", Dev: cyref.Deviations{ArithmeticAndSumCoerceProperty: true}},
 }
 
@@ -61,6 +62,7 @@ func merge(a, b cyref.Deviations) cyref.Deviations {
 		OptionalMatchMultipliesDuplicateRows:       a.OptionalMatchMultipliesDuplicateRows || b.OptionalMatchMultipliesDuplicateRows,
 		ArithmeticAndSumCoerceProperty:             a.ArithmeticAndSumCoerceProperty || b.ArithmeticAndSumCoerceProperty,
 		OptionalMatchJoinsOnAllBindings:            a.OptionalMatchJoinsOnAllBindings || b.OptionalMatchJoinsOnAllBindings,
+		WithDropsOrderSkipLimit:                    a.WithDropsOrderSkipLimit || b.WithDropsOrderSkipLimit,
 		ExactRangeRepeatedVariableCrossJoinsNodes:  a.ExactRangeRepeatedVariableCrossJoinsNodes || b.ExactRangeRepeatedVariableCrossJoinsNodes,
 	}
 }
@@ -112,35 +114,51 @@ func JudgeC01(m *cypher.RegularQuery, q Query, g *gm.Graph, ref *cyref.Result, s
 	if why == "" {
 		return nil, ""
 	}
-	// smallest set of known deviations that explains the SQL result exactly
+	if scopes, ok := Explain(m, q, g, sql, 1); ok {
+		return scopes, why
+	}
+	return []string{featureClass("rows-differ", q)}, why
+}
+
+// Explain searches the smallest set of known deviations (at least minSize, at most 3) under which the reference
+// evaluator reproduces the given SQL rows exactly. ok=false: no such set.
+func Explain(m *cypher.RegularQuery, q Query, g *gm.Graph, sql *gm.Rows, minSize int) (scopes []string, ok bool) {
 	n := len(KnownDeviations)
-	for size := 1; size <= n && size <= 3; size++ {
-		for mask := 1; mask < 1<<n; mask++ {
+	for size := minSize; size <= n && size <= 3; size++ {
+		for mask := 0; mask < 1<<n; mask++ {
 			if popcount(mask) != size {
 				continue
 			}
 			var dev cyref.Deviations
-			var scopes []string
+			var names []string
 			for i, kd := range KnownDeviations {
 				if mask&(1<<i) != 0 {
 					dev = merge(dev, kd.Dev)
 					dupScope := false
-					for _, sc := range scopes {
+					for _, sc := range names {
 						dupScope = dupScope || sc == kd.Scope
 					}
 					if !dupScope {
-						scopes = append(scopes, kd.Scope)
+						names = append(names, kd.Scope)
 					}
 				}
 			}
 			ev := cyref.New(g, q.Params)
 			ev.Dev = dev
-			if alt, err := ev.Run(m); err == nil && CompareToReference(alt, sql) == "" {
-				return scopes, why
+			alt, err := func() (r *cyref.Result, err error) {
+				defer func() {
+					if p := recover(); p != nil {
+						err = fmt.Errorf("panic: %v", p)
+					}
+				}()
+				return ev.Run(m)
+			}()
+			if err == nil && CompareToReference(alt, sql) == "" {
+				return names, true
 			}
 		}
 	}
-	return []string{featureClass("rows-differ", q)}, why
+	return nil, false
 }
 
 func popcount(x int) int {
